@@ -393,3 +393,53 @@ def name_line_budget(prog, rule, unit="ciffile.c"):
                                        "limit, reported as over-length when the output is parsed"
                                        % (fmt.replace("\n", "\\n"), k, what, "" if not margin else " - %d" % margin, k - room))
     return n
+
+
+def first_line_budget(prog, rule, unit="ciffile.c"):
+    """A text field is opened with `;` on the line of the value's first line, so that line may hold one character fewer than
+    the others.  The fold decision of write_char (the value handed to write_text as `fold`), evaluated for a value whose
+    first and longest line have exactly LINE_LENGTH characters and nothing else remarkable, must come out true; unfolded,
+    the first line is written with LINE_LENGTH + 1 characters."""
+    from .chareval import _ev
+    n = 0
+    line_len = prog.macro_int("CIF_LINE_LENGTH")
+    for fn in prog.all_functions():
+        if fn.unit != unit:
+            continue
+        for (b, i, r, c) in fn.calls_to("write_text"):
+            args = c.get("args", [])
+            if len(args) < 4:
+                continue
+            fold = strip(args[3])
+            if const(fold) is not None:
+                continue
+            exprs = [fold]
+            if isinstance(fold, dict) and fold.get("k") == "ref":
+                # unconditional or conditional stores of a constant true only add reasons to fold: the computed one decides
+                defs = [d for d in _defs_of(fn, fold.get("name")) if const(d) in (None, 0)]
+                if len(defs) != 1:
+                    continue
+                exprs = defs
+            stats = sorted({path(x) for e in exprs for x in walk(e) if isinstance(x, dict) and x.get("k") == "member" and path(x)})
+            firsts = [s_ for s_ in stats if s_.endswith("length_first")]
+            n += 1
+            key = "%s:fold@L%s" % (fn.name, c.get("l"))
+            env = {}
+            for s_ in stats:
+                env[s_] = line_len if (s_.endswith("length_first") or s_.endswith("length_max")) else 0
+            # the first character of the text (`text[0] == ';'`) and similar reads are left unknown
+            v = _ev(exprs[0], env, 2)
+            if not firsts and v in (0, None):
+                rule.violation(fn.file, fn.name, c.get("l"), "first-line-not-in-fold-decision:%s" % fn.name,
+                               "the fold decision `%s` does not look at the length of the value's first line, which shares its line "
+                               "with the opening `;`: a first line of exactly %d characters is written as a line of %d"
+                               % (show(exprs[0])[:120], line_len, line_len + 1))
+            elif v == 0:
+                rule.violation(fn.file, fn.name, c.get("l"), "first-line-over-budget:%s" % fn.name,
+                               "the fold decision `%s` is false for a value whose first (and longest) line has exactly %d characters: "
+                               "behind the opening `;` that line is written with %d characters" % (show(exprs[0])[:120], line_len, line_len + 1))
+            elif v is None:
+                rule.info(key, "fold decision not evaluable: no verdict")
+            else:
+                rule.ok(key, "a first line of %d characters is folded" % line_len)
+    return n
